@@ -49,7 +49,8 @@ def main():
             rep = rep2
         else:
             mirsym.AUTO_INLINE = False
-    if rep.inconclusive and not rep.violations and hasattr(mod, "fallback") and os.environ.get("VERIF_NO_FALLBACK") != "1":
+    force = os.environ.get("VERIF_FORCE_FALLBACK") == "1"        # audit of the batteries on a tree where the property holds
+    if (force or (rep.inconclusive and not rep.violations)) and hasattr(mod, "fallback") and os.environ.get("VERIF_NO_FALLBACK") != "1":
         # A kernel could not be built or a solver model found no matching scenario (typically after a restructuring of the code the
         # kernel is shaped after). The undecided obligations stay undecided; in addition EVERY scenario of the property's replay
         # battery is run against the native build of this tree, and a scenario whose concrete oracle fails is reported (it is a
